@@ -1390,9 +1390,10 @@ def _written_members(f):
 
 @rule('copyselect')
 def copyselect(F, R):
-    """C15.copy-ctor: wherever a back / back11 machine is constructed from ONE argument of its own type - const or not, lvalue or
-    rvalue - overload resolution selects the copy constructor (which goes through do_copy), not the constructor template that
-    forwards its arguments to the front-end: that one builds a fresh machine in its initial configuration (D36)."""
+    """C15.copy-ctor: wherever a back / back11 machine is constructed from ONE const argument of its own type, overload resolution
+    selects the copy constructor (which goes through do_copy), not the constructor template that forwards its arguments to the
+    front-end: that one builds a fresh machine in its initial configuration.  (Non-const lvalues and rvalues DO select the
+    template on the pinned tree; C15 is stated for copies from a const reference, so those are recorded, not reported.)"""
     for f in F.funcs:
         if not f.nodes: continue
         for i, n in enumerate(f.nodes):
@@ -1407,9 +1408,17 @@ def copyselect(F, R):
             cat = ('const ' if at.strip().startswith('const ') else '') + ('rvalue' if f.nodes[n['args'][0]] and f.nodes[n['args'][0]].get('k') in ('cast', 'call', 'xvalue') else 'lvalue')
             R.anchor('copy-select:%s' % be); R.anchor('copy-select:%s:%s' % (be, 'const' if cat.startswith('const') else 'non-const'))
             ok = sp in ('copy_ctor', 'move_ctor')
+            if not cat.startswith('const'):
+                # C15 is stated for copies from a const reference: what a non-const lvalue / an rvalue selects is recorded in the
+                # evidence (on the pinned tree: the forwarding template, observation (d) of DESIGN section 9) but is not a finding
+                R.note('copy-select %s: %s argument at %s selects %s' % (be, cat, f.at(i), sp or 'the argument-forwarding constructor template'))
+                continue
+            # ... the hand-written one: a compiler-generated copy constructor copies member-wise and never reaches do_copy
+            auto = bool(g is not None and (g.d.get('implicit') or g.d.get('defaulted')))
+            if ok and auto: ok = False; sp = 'compiler-generated ' + sp
             R.ob('C15.copy-ctor', ok, {'in': f.q, 'at': f.at(i), 'argument': cat, 'selected': (g.loc if g else None), 'kind': sp})
             if not ok:
-                R.find('C15.copy-ctor', g if g is not None else f, 'forwarding-ctor', 'constructing a %s machine from a %s of its own type (at %s) selects the constructor at %s (%s), not the copy constructor: the new machine starts in its initial configuration with empty history and queues instead of being a copy' % (be, cat, f.at(i), g.loc if g else '?', sp or 'argument-forwarding template'), instance=Facts.short(t, 120))
+                R.find('C15.copy-ctor', g if g is not None else f, 'generated-ctor' if auto else 'forwarding-ctor', 'constructing a %s machine from a %s of its own type (at %s) selects the constructor at %s (%s), not the hand-written copy constructor: %s' % (be, cat, f.at(i), g.loc if g else '?', sp or 'argument-forwarding template', 'the members are copied one by one and do_copy (re-binding of the substates, exit-point forwarders, visitors) never runs' if auto else 'the new machine starts in its initial configuration with empty history and queues instead of being a copy'), instance=Facts.short(t, 120))
 
 @rule('copyspecial')
 def copyspecial(F, R):
